@@ -253,6 +253,9 @@ var caseNo int
 
 // populate creates the directory named by path (relative paths are relative to
 // the root, which is the working directory) with the given entries.
+// pathIsFile: the next populate call makes its path a regular file instead of a directory
+var pathIsFile bool
+
 func populate(path string, readable bool, ents []string) (cleanup func()) {
 	abs := path
 	if !filepath.IsAbs(abs) {
@@ -266,6 +269,12 @@ func populate(path string, readable bool, ents []string) (cleanup func()) {
 	rel := strings.TrimPrefix(abs, root+"/")
 	top := filepath.Join(root, strings.SplitN(rel, "/", 2)[0])
 	cleanup = func() { os.RemoveAll(top) }
+	if pathIsFile {
+		pathIsFile = false
+		os.MkdirAll(filepath.Dir(abs), 0o755)
+		os.WriteFile(abs, nil, 0o644)
+		return
+	}
 	if !readable {
 		os.MkdirAll(filepath.Dir(abs), 0o755)
 		return
@@ -632,6 +641,7 @@ func dispatch(op string, a []string) string {
 		qs, err := fileseq.FindSequencesInList(a[1:], fileOpts(argzl(a[0]))...)
 		return showListing(qs, err)
 	case "disk":
+		pathIsFile = argz(a[2]) == 2
 		cleanup := populate(a[1], argz(a[2]) != 0, a[3:])
 		defer cleanup()
 		order := readdirOrder(a[1])
@@ -725,13 +735,23 @@ func safeDispatch(op string, a []string) (out string) {
 // goroutine is left behind.
 var lineDeadline = 30 * time.Second
 
+// after hangLimit calls that never returned (each answered HANG) the remaining lines are not
+// evaluated any more (HANG-SKIPPED): the abandoned goroutines keep their cores and their memory
+const hangLimit = 4
+
+var hangs int
+
 func deadlineDispatch(op string, a []string) string {
+	if hangs >= hangLimit {
+		return "HANG-SKIPPED"
+	}
 	done := make(chan string, 1)
 	go func() { done <- safeDispatch(op, a) }()
 	select {
 	case r := <-done:
 		return r
 	case <-time.After(lineDeadline):
+		hangs++
 		return "HANG"
 	}
 }
